@@ -2192,6 +2192,22 @@ static void upipe_h265f_output_au(struct upipe *upipe, struct uref *uref,
     upipe_h265f_output(upipe, uref, upump_p);
 }
 
+/** @internal @This removes, from what remains of the input buffer, the
+ * attributes describing the access unit that was just taken out of it, so that
+ * the next access unit carved from the same buffer does not inherit them.
+ *
+ * @param upipe description structure of the pipe
+ */
+static void upipe_h265f_clean_au_attr(struct upipe *upipe)
+{
+    struct upipe_h265f *upipe_h265f = upipe_h265f_from_upipe(upipe);
+    upipe_h265f->au_nal_units = 0;
+    if (upipe_h265f->next_uref == NULL)
+        return;
+    uref_flow_delete_random(upipe_h265f->next_uref);
+    uref_h26x_delete_nal_offsets(upipe_h265f->next_uref);
+}
+
 /** @internal @This prepares an annex B access unit.
  *
  * @param upipe description structure of the pipe
@@ -2211,6 +2227,7 @@ static struct uref *upipe_h265f_prepare_annexb(struct upipe *upipe)
         upipe_h265f->active_pps == -1) {
         upipe_warn(upipe, "discarding data without VPS/SPS/PPS");
         upipe_h265f_consume_uref_stream(upipe, upipe_h265f->au_size);
+        upipe_h265f_clean_au_attr(upipe);
         upipe_h265f->au_size = 0;
         upipe_h265f->au_nal_units = 0;
         upipe_h265f->au_vcl_offset = -1;
@@ -2230,6 +2247,7 @@ static struct uref *upipe_h265f_prepare_annexb(struct upipe *upipe)
         upipe_throw_fatal(upipe, UBASE_ERR_ALLOC);
         return NULL;
     }
+    upipe_h265f_clean_au_attr(upipe);
     upipe_h265f->au_nal_units = 0;
 
     int err = upipe_h265f_prepare_au(upipe, uref);
@@ -2324,6 +2342,7 @@ static void upipe_h265f_end_annexb(struct upipe *upipe, struct upump **upump_p)
             /* we need to discard previous data */
             upipe_warn(upipe, "discarding non-sync data");
             upipe_h265f_consume_uref_stream(upipe, upipe_h265f->au_size);
+            upipe_h265f_clean_au_attr(upipe);
             upipe_h265f->au_size = 0;
         }
         upipe_h265f_sync_acquired(upipe);
@@ -2374,6 +2393,7 @@ static void upipe_h265f_end_annexb(struct upipe *upipe, struct upump **upump_p)
         /* discard the entire NAL */
         upipe_warn(upipe, "discarding non-slice data due to discontinuity");
         upipe_h265f_consume_uref_stream(upipe, upipe_h265f->au_size);
+        upipe_h265f_clean_au_attr(upipe);
         upipe_h265f->au_size = 0;
         return;
     }
